@@ -1,7 +1,8 @@
 import CCV.Lemmas.Bytes
+import CCV.Lemmas.TVJson
 /-
   C13 — values encode integers faithfully, in bytes and in JSON.
-  Property theorems only; helper lemmas live in CCV/Lemmas/Bytes.lean.
+  Property theorems only; helper lemmas live in CCV/Lemmas/{Bytes,TypedValue,TVArray,TVShape,TVJson}.lean.
 -/
 namespace CCV.C13
 open CCV CCV.Bytes
@@ -34,5 +35,326 @@ theorem elem_roundtrip128 (st : ST) (h : st ≠ .bit) (x : Int) :
 /-- non-vacuity: i16, x = -300 ↦ bytes [212, 254] ↦ 2^128 - 300 -/
 example : signPad 128 .i16 (fromLE ((leBytes (asU128 (-300)) ST.i16.byteLen).take 16)) = 2 ^ 128 - 300 := by
   decide
+
+/-- **Element round trip through the 64-bit reader.**  `vec_u64_from_bytes` only accumulates the
+    first 8 bytes of a chunk and sign-pads to 64 bits: the result is the `u128` image of the
+    denoted integer, truncated to 64 bits (`as u64`). -/
+theorem elem_roundtrip64 (st : ST) (h : st ≠ .bit) (x : Int) :
+    signPad 64 st (fromLE ((leBytes (asU128 x) st.byteLen).take (64 / 8)))
+      = asU128 (st.toInt (st.ofInt x)) % 2 ^ 64 := by
+  cases st <;> first | exact absurd rfl h | skip
+  all_goals
+    simp only [ST.byteLen, ST.bits, ST.signed, ST.toInt, ST.ofInt, signPad, asU128]
+    simp [take_leBytes', fromLE_leBytes, max0]
+    try omega
+  · have := or_mask ((x % 340282366920938463463374607431768211456).toNat % 256) 8 64 (by omega) (by decide)
+    simp at this; rw [this]; split <;> split <;> omega
+  · have := or_mask ((x % 340282366920938463463374607431768211456).toNat % 65536) 16 64 (by omega) (by decide)
+    simp at this; rw [this]; split <;> split <;> omega
+  · have := or_mask ((x % 340282366920938463463374607431768211456).toNat % 4294967296) 32 64 (by omega) (by decide)
+    simp at this; rw [this]; split <;> split <;> omega
+
+/-- non-vacuity: i128, x = -2^64 - 5 ↦ 16 bytes, low 8 bytes read back as 2^64 - 5 -/
+example : signPad 64 .i128 (fromLE ((leBytes (asU128 (-(2 ^ 64) - 5)) ST.i128.byteLen).take 8))
+    = 2 ^ 64 - 5 := by
+  decide
+
+/-- **Vector round trip, 128-bit reader (all ten integer scalar types, every list of integers).**
+    `vec_to_bytes` succeeds, yields exactly `len · byteLen` bytes, each `< 256`, and
+    `vec_u128_from_bytes` returns, elementwise, the `u128` image of the integer denoted by
+    `x mod 2^w` in `st`. -/
+theorem vec_roundtrip128 (st : ST) (h : st ≠ .bit) (xs : List Int) :
+    ∃ bs, vecToBytes st xs = .ok bs ∧ bs.length = xs.length * st.byteLen ∧ (∀ b ∈ bs, b < 256) ∧
+      vecU128FromBytes st bs = .ok (xs.map fun x => asU128 (st.toInt (st.ofInt x))) := by
+  refine ⟨_, vecToBytes_ne_bit st h xs, ?_, ?_, ?_⟩
+  · exact length_flatMap_const _ _ _ (fun x _ => length_leBytes _ _)
+  · exact mem_flatMap_lt _ _ (fun x _ => leBytes_lt _ _)
+  · rw [vecU128FromBytes, vecFromBytesW_flatMap 128 st h _ xs (fun x _ => length_leBytes _ _)]
+    simp only [elem_roundtrip128 st h]
+
+/-- non-vacuity: the witness bytes and the read-back for a 3-element i16 vector -/
+example : vecToBytes .i16 [-300, 7, 40000] = .ok [212, 254, 7, 0, 64, 156] ∧
+    vecU128FromBytes .i16 [212, 254, 7, 0, 64, 156] = .ok [2 ^ 128 - 300, 7, 2 ^ 128 - 25536] :=
+  ⟨rfl, rfl⟩
+
+/-- **Vector round trip, 64-bit reader.** Same as `vec_roundtrip128`, the values being truncated
+    to 64 bits. -/
+theorem vec_roundtrip64 (st : ST) (h : st ≠ .bit) (xs : List Int) :
+    ∃ bs, vecToBytes st xs = .ok bs ∧ bs.length = xs.length * st.byteLen ∧ (∀ b ∈ bs, b < 256) ∧
+      vecU64FromBytes st bs = .ok (xs.map fun x => asU128 (st.toInt (st.ofInt x)) % 2 ^ 64) := by
+  refine ⟨_, vecToBytes_ne_bit st h xs, ?_, ?_, ?_⟩
+  · exact length_flatMap_const _ _ _ (fun x _ => length_leBytes _ _)
+  · exact mem_flatMap_lt _ _ (fun x _ => leBytes_lt _ _)
+  · rw [vecU64FromBytes, vecFromBytesW_flatMap 64 st h _ xs (fun x _ => length_leBytes _ _)]
+    simp only [elem_roundtrip64 st h]
+
+/-- non-vacuity -/
+example : vecToBytes .i16 [-300, 7, 40000] = .ok [212, 254, 7, 0, 64, 156] ∧
+    vecU64FromBytes .i16 [212, 254, 7, 0, 64, 156] = .ok [2 ^ 64 - 300, 7, 2 ^ 64 - 25536] :=
+  ⟨rfl, rfl⟩
+
+/-- **Bit vectors round trip.**  A list of 0/1 integers is packed by `vec_to_bytes` into
+    `⌈n/8⌉` bytes (each `< 256`); `to_flattened_array_u128` on an array of shape `[n]` returns
+    exactly the input bits, and the stray bits of the last byte (positions `n ..`) are all zero. -/
+theorem bits_roundtrip (xs : List Int) (h : ∀ x ∈ xs, x = 0 ∨ x = 1) :
+    ∃ bs, vecToBytes .bit xs = .ok bs ∧ bs.length = (xs.length + 7) / 8 ∧ (∀ b ∈ bs, b < 256) ∧
+      toFlatU128 bs [xs.length] .bit = .ok (xs.map Int.toNat) ∧
+      (bs.flatMap unpackByte).drop xs.length = List.replicate (8 * bs.length - xs.length) 0 := by
+  have hy := toNat_bit_le xs h
+  have hlen : ((chunks8 (xs.map Int.toNat)).map packBits).length = (xs.length + 7) / 8 := by
+    simp [length_chunks8]
+  have hup := unpack_pack_chunks8 _ hy
+  refine ⟨_, bitsToBytes_ok xs h, hlen, ?_, ?_, ?_⟩
+  · intro b hb
+    rcases List.mem_map.1 hb with ⟨c, hc, rfl⟩
+    have hc' := mem_chunks8 _ c hc
+    have h1 := packBits_lt c (fun y hy' => hy y (hc'.2 y hy'))
+    have h2 : 2 ^ c.length ≤ 2 ^ 8 := Nat.pow_le_pow_right (by decide) hc'.1
+    omega
+  · have hck : checkArrayType ((chunks8 (xs.map Int.toNat)).map packBits).length [xs.length] .bit = true := by
+      rw [hlen]; simp [checkArrayType, numel, ST.bits]
+    simp only [toFlatU128, hck, vecU128FromBytes, vecFromBytesW, hup]
+    simp [numel, List.take_left']
+  · rw [hup, List.length_map]
+    simp [List.drop_left']
+
+/-- non-vacuity: 10 bits ↦ 2 bytes, 6 stray zero bits -/
+example : vecToBytes .bit [1, 0, 1, 1, 0, 0, 0, 1, 1, 1] = .ok [141, 3] ∧
+    toFlatU128 [141, 3] [10] .bit = .ok [1, 0, 1, 1, 0, 0, 0, 1, 1, 1] ∧
+    ([141, 3].flatMap unpackByte).drop 10 = List.replicate 6 0 := by
+  refine ⟨?_, ?_, by decide⟩
+  · rw [vecToBytes, bitsToBytes]; simp [isBit, chunks8_ne_nil, chunks8_nil, packBits]
+  · rfl
+
+/-- **Non-bits are rejected.**  If some element is neither 0 nor 1, `vec_to_bytes` for `BIT`
+    fails with "Input is not a bit". -/
+theorem bits_reject (xs : List Int) (h : ∃ x ∈ xs, x ≠ 0 ∧ x ≠ 1) :
+    vecToBytes .bit xs = .error "Input is not a bit" := by
+  have : ¬ (xs.all isBit = true) := by
+    rw [all_isBit_iff]
+    rcases h with ⟨x, hx, h0, h1⟩
+    intro hall
+    rcases hall x hx with e | e
+    · exact h0 e
+    · exact h1 e
+  simp only [vecToBytes, bitsToBytes, if_neg this]
+
+/-- non-vacuity -/
+example : vecToBytes .bit [0, 1, 2, 1] = .error "Input is not a bit" :=
+  bits_reject _ ⟨2, by decide, by decide, by decide⟩
+
+/-- **Layout check.** `check_type` accepts a byte value for array type `(shape, st)` iff its length
+    is exactly `⌈numel · bits / 8⌉`. -/
+theorem checkArrayType_iff (len : Nat) (shape : List Nat) (st : ST) :
+    checkArrayType len shape st = true ↔ len = (numel shape * st.bits + 7) / 8 := by
+  simp [checkArrayType]
+
+/-- non-vacuity -/
+example : checkArrayType 6 [3] .i16 = true ∧ checkArrayType 5 [3] .i16 = false ∧
+    checkArrayType 2 [2, 5] .bit = true := by decide
+
+/-- **`to_flattened_array_u128` succeeds exactly on correctly laid-out values** (every scalar type,
+    `BIT` included): the only failure is the length check; the `len % byteLen` test of
+    `vec_u128_from_bytes` can never fail once the length check has passed. -/
+theorem toFlatU128_ok_iff_layout (bs : List Nat) (shape : List Nat) (st : ST) :
+    (∃ r, toFlatU128 bs shape st = .ok r) ↔ bs.length = (numel shape * st.bits + 7) / 8 := by
+  rw [← checkArrayType_iff]
+  by_cases hc : checkArrayType bs.length shape st = true
+  · have hl := (checkArrayType_iff _ _ _).1 hc
+    have hm : bs.length % st.byteLen = 0 := by
+      by_cases h : st = .bit
+      · subst h; simp [ST.byteLen, ST.bits]; omega
+      · rw [hl, bits_eq_byteLen st h]
+        have : (numel shape * (8 * st.byteLen) + 7) / 8 = numel shape * st.byteLen := by
+          rw [← Nat.mul_assoc, Nat.mul_comm (numel shape) 8, Nat.mul_assoc]; omega
+        rw [this]; exact Nat.mul_mod_left _ _
+    rcases (vecFromBytesW_ok_iff 128 st bs).2 hm with ⟨r, hr⟩
+    simp [toFlatU128, hc, vecU128FromBytes, hr]
+  · simp [toFlatU128, hc]
+
+/-- non-vacuity: a 6-byte value of type i16[3] decodes, a 5-byte one is rejected -/
+example : (∃ r, toFlatU128 [1, 2, 3, 4, 5, 255] [3] .i16 = .ok r) ∧
+    toFlatU128 [1, 2, 3, 4, 5] [3] .i16 = .error "Type and value mismatch" :=
+  ⟨⟨[513, 1027, 2 ^ 128 - 251], rfl⟩, rfl⟩
+
+/-- **`to_flattened_array_u64` is `to_flattened_array_u128` truncated to 64 bits**, errors included. -/
+theorem toFlatU64_eq (bs : List Nat) (shape : List Nat) (st : ST) :
+    toFlatU64 bs shape st = (toFlatU128 bs shape st).map (fun r => r.map (· % 2 ^ 64)) := by
+  rw [toFlatU64]
+  cases toFlatU128 bs shape st <;> rfl
+
+/-- non-vacuity -/
+example : toFlatU64 [1, 2, 3, 4, 5, 255] [3] .i16 = .ok [513, 1027, 2 ^ 64 - 251] := rfl
+
+/-- **The `u64` writer agrees with the `u128` writer, per element.**  For every integer scalar type
+    and every value `x` of a native Rust integer type (`nb` bits, signed iff `ns`) that `as_u64`
+    accepts, the bytes produced by `vec_u64_to_bytes` (low bytes of `x as u64`, then 0x00 / 0xff
+    padding for the 128-bit scalar types) are the first `byteLen` little-endian bytes of
+    `x as u128`, i.e. exactly what `vec_to_bytes` writes. -/
+theorem u64_writer_agrees (st : ST) (h : st ≠ .bit) (nb : Nat) (hnb : nb ∈ [8, 16, 32, 64, 128])
+    (ns : Bool) (x : Int)
+    (hr : if ns = true then -(2 ^ (nb - 1)) ≤ x ∧ x < 2 ^ (nb - 1) else 0 ≤ x ∧ x < 2 ^ nb)
+    (hf : fitsU64 nb ns x = true) :
+    elemU64ToBytes st.byteLen x = leBytes (asU128 x) st.byteLen := by
+  have h16 : elemU64ToBytes 16 x = leBytes (asU128 x) 16 := by
+    apply elemU64_16
+    simp only [List.mem_cons, List.not_mem_nil, or_false] at hnb
+    rcases hnb with rfl | rfl | rfl | rfl | rfl <;> cases ns <;>
+      simp [fitsU64] at hf hr <;> omega
+  cases st <;> first | exact absurd rfl h | exact h16 | exact elemU64_le8 _ (by decide) x
+
+/-- non-vacuity: a negative i128 written as I128 (0xff padding branch) -/
+example : fitsU64 128 true (-5) = true ∧
+    elemU64ToBytes ST.i128.byteLen (-5) = leBytes (asU128 (-5)) ST.i128.byteLen := by decide
+
+/-- **Vector form (every scalar type, `BIT` included).** -/
+theorem vec_u64_writer_agrees (st : ST) (nb : Nat) (hnb : nb ∈ [8, 16, 32, 64, 128])
+    (ns : Bool) (xs : List Int)
+    (hr : ∀ x ∈ xs, if ns = true then -(2 ^ (nb - 1)) ≤ x ∧ x < 2 ^ (nb - 1) else 0 ≤ x ∧ x < 2 ^ nb)
+    (hf : xs.all (fitsU64 nb ns) = true) :
+    vecU64ToBytes nb ns st xs = vecToBytes st xs := by
+  by_cases h : st = .bit
+  · subst h; rfl
+  · rw [vecToBytes_ne_bit st h]
+    have : vecU64ToBytes nb ns st xs = .ok (xs.flatMap (elemU64ToBytes st.byteLen)) := by
+      cases st <;> first | exact absurd rfl h | simp only [vecU64ToBytes, hf, if_true]
+    rw [this]
+    congr 1
+    apply flatMap_congr'
+    intro x hx
+    exact u64_writer_agrees st h nb hnb ns x (hr x hx) (List.all_eq_true.1 hf x hx)
+
+/-- non-vacuity -/
+example : vecU64ToBytes 128 true .i128 [-5, 7] = vecToBytes .i128 [-5, 7] :=
+  vec_u64_writer_agrees _ _ (by decide) _ _ (by decide) (by decide)
+
+/-- non-vacuity: unsigned 128-bit value accepted through its complement -/
+example : vecU64ToBytes 128 false .u128 [2 ^ 128 - 2] =
+    .ok [254, 255, 255, 255, 255, 255, 255, 255, 255, 255, 255, 255, 255, 255, 255, 255] := rfl
+
+/-- **The `u64` writer rejects** a vector as soon as one element is not accepted by `as_u64`. -/
+theorem u64_writer_rejects (st : ST) (h : st ≠ .bit) (nb : Nat) (ns : Bool) (xs : List Int)
+    (hf : ∃ x ∈ xs, fitsU64 nb ns x = false) :
+    vecU64ToBytes nb ns st xs = .error "The integer of this size is not supported" := by
+  have : ¬ (xs.all (fitsU64 nb ns) = true) := by
+    rcases hf with ⟨x, hx, hfx⟩
+    intro hall
+    rw [List.all_eq_true.1 hall x hx] at hfx
+    exact Bool.noConfusion hfx
+  cases st <;> first | exact absurd rfl h | simp only [vecU64ToBytes, if_neg this]
+
+/-- non-vacuity -/
+example : vecU64ToBytes 128 true .i128 [3, 2 ^ 64] = .error "The integer of this size is not supported" :=
+  u64_writer_rejects _ (by decide) _ _ _ ⟨2 ^ 64, by decide, by decide⟩
+
+/-! ## containers: type-recursive layout, typed accessors, JSON form -/
+section Containers
+open CCV.TV
+
+/-- **Layout (type-recursive).** `check_type` answers `Ok(true)` exactly when the type is valid and the
+    value has the layout of the type: `⌈bits/8⌉` bytes for scalars and arrays, the same nesting
+    structure (number of children, each child laid out as its component type) for vectors, tuples and
+    named tuples. -/
+theorem checkType_iff_layout (v : Val) (t : Ty) :
+    checkType v t = .ok true ↔ t.isValid = true ∧ Layout t v := by
+  unfold checkType
+  constructor
+  · intro h
+    by_cases hv : t.isValid = true
+    · rw [if_pos hv] at h
+      exact ⟨hv, layout_of_checkB t v (by simpa using h)⟩
+    · rw [if_neg hv] at h; cases h
+  · rintro ⟨hv, hl⟩
+    rw [if_pos hv, checkB_of_layout t v hl]
+
+example : checkType (.vec [.bytes [1, 2], .vec [.bytes [7], .bytes [255]]])
+    (.tuple [.scalar .i16, .vector 2 (.array [3] .bit)]) = .ok true := by rfl
+
+/-- a layout mismatch (one byte too many in a nested bit array) is rejected; an invalid type is an error -/
+example : checkType (.vec [.bytes [1, 2], .vec [.bytes [7], .bytes [255, 0]]])
+    (.tuple [.scalar .i16, .vector 2 (.array [3] .bit)]) = .ok false ∧
+    checkType (.bytes [0]) (.array [] .u8) = .error "Invalid type!" := ⟨by rfl, by rfl⟩
+
+/-- **`zero_of_type` has the layout of its type**, for every valid type. -/
+theorem zeroOf_checks (t : Ty) (h : t.isValid = true) : checkType (zeroOf t) t = .ok true := by
+  unfold checkType; rw [if_pos h, checkB_zeroOf]
+
+example : zeroOf (.named [("a", .array [3, 3] .bit), ("b", .vector 2 (.scalar .i32))])
+    = .vec [.bytes [0, 0], .vec [.bytes [0, 0, 0, 0], .bytes [0, 0, 0, 0]]] := by rfl
+
+/-- **JSON round trip.** For every type the JSON form can express (valid; no vector of length 0 and no
+    empty named tuple — the two blind spots recorded as findings) and every value that passes
+    `check_type` and consists of bytes: serialization succeeds, the text parses back
+    (`deserialize_human_readable`) to a typed value of *the same type* that passes `check_type`
+    and `is_equal`s the original.  Covers scalars and arrays of all 11 scalar types (negative and
+    128-bit numbers, ragged bit arrays), nested tuples, named tuples and vectors, to any depth. -/
+theorem json_roundtrip (t : Ty) (v : Val) (he : expressible t = true)
+    (hc : checkType v t = .ok true) (hb : bytesOk v = true) :
+    ∃ j v', toJ t v = some j ∧ ofJTop j = some (t, v') ∧ checkType v' t = .ok true ∧
+      isEqual t v v' = true := by
+  have hl := (checkType_iff_layout v t).1 hc
+  obtain ⟨j, v', h1, h2, h3, h4⟩ := rt_all t v he (checkB_of_layout t v hl.2) hb
+  refine ⟨j, v', h1, by simp [ofJTop, h2], ?_, h4⟩
+  unfold checkType; rw [if_pos hl.1, h3]
+
+example : toJ (.named [("k", .scalar .i128), ("bits", .array [2, 2] .bit)])
+      (.vec [.bytes (List.replicate 15 0 ++ [128]), .bytes [0xf6]])
+    = some (tvObj "named tuple" none (.arr [
+        .obj [("name", .str "k"), ("value", tvObj "scalar" (some "i128") (.num (-(2 ^ 127))))],
+        .obj [("name", .str "bits"), ("value", tvObj "array" (some "bit") (.arr [.arr [.num 0, .num 1], .arr [.num 1, .num 0]]))]])) := by
+  rfl
+
+
+/-- non-vacuity of the hypotheses of `json_roundtrip`: a named tuple holding the most negative `i128`,
+    a ragged bit array with stray bits set, and a vector of tuples -/
+example :
+    let t : Ty := .named [("k", .scalar .i128), ("bits", .array [2, 2] .bit),
+      ("v", .vector 2 (.tuple [.scalar .u8, .array [1] .i16]))]
+    let v : Val := .vec [.bytes (List.replicate 15 0 ++ [128]), .bytes [0xf6],
+      .vec [.vec [.bytes [1], .bytes [255, 255]], .vec [.bytes [2], .bytes [0, 128]]]]
+    expressible t = true ∧ checkType v t = .ok true ∧ bytesOk v = true :=
+  ⟨by rfl, by rfl, by rfl⟩
+
+/-- a concrete round trip computed by the model: most negative `i128`, largest `u128`, negative `i16`s -/
+example :
+    let t : Ty := .tuple [.scalar .i128, .vector 1 (.scalar .u128), .array [1, 2] .i16]
+    let v : Val := .vec [.bytes (List.replicate 15 0 ++ [128]), .vec [.bytes (List.replicate 16 255)],
+      .bytes [255, 255, 0, 128]]
+    (toJ t v).bind ofJTop = some (t, v) := by rfl
+
+/-- **Blind spot 1 (finding).** A vector of length 0 of *any* element type serializes to
+    `{"kind":"vector","value":[]}` and parses back as `Vector(0, ())`: the element type is lost, so
+    `is_equal` fails unless the element type was the empty tuple. -/
+theorem json_empty_vector_loses_type (t : Ty) :
+    (toJ (.vector 0 t) (.vec [])).bind ofJTop = some (.vector 0 (.tuple []), .vec []) := by
+  have : toJ (.vector 0 t) (.vec []) = some (tvObj "vector" none (.arr [])) := by simp [toJ]
+  rw [this]; rfl
+
+/-- **Blind spot 2 (finding).** The empty named tuple serializes to `{"kind":"named tuple","value":[]}`
+    and the deserializer rejects that text. -/
+theorem json_empty_named_tuple_rejected :
+    toJ (.named []) (.vec []) = some (tvObj "named tuple" none (.arr [])) ∧
+    ofJTop (tvObj "named tuple" none (.arr [])) = none := ⟨by rfl, by rfl⟩
+
+/-- **Typed scalar accessors.** A scalar written from any integer `x` reads back, through the accessor
+    of its own native type (`to_i16` for `i16`, …), as the integer `x mod 2^w` denotes in that type. -/
+theorem scalar_accessor_roundtrip (st : ST) (h : st ≠ .bit) (x : Int) :
+    ∃ bs, vecToBytes st [x] = .ok bs ∧
+      toU128 (.bytes bs) st = .ok (asU128 (st.toInt (st.ofInt x))) ∧
+      castNative st.bits st.signed (asU128 (st.toInt (st.ofInt x))) = st.toInt (st.ofInt x) := by
+  obtain ⟨bs, h1, _, _, h4⟩ := vec_roundtrip128 st h [x]
+  refine ⟨bs, h1, by simp [toU128, h4], ?_⟩
+  have hm := asU128_toInt_mod st (st.ofInt x)
+  cases st <;> first | exact absurd rfl h | skip
+  all_goals
+    simp only [ST.bits, ST.signed, castNative, ST.toInt, ST.ofInt, asU128, Bool.false_eq_true, false_and, if_false, true_and] at hm ⊢
+    try omega
+  all_goals (split <;> split <;> omega)
+
+example : vecToBytes .i16 [-300] = .ok [212, 254] ∧ toU128 (.bytes [212, 254]) .i16 = .ok (2 ^ 128 - 300) ∧
+    castNative 16 true (2 ^ 128 - 300) = -300 ∧ castNative 8 false (2 ^ 128 - 300) = 212 :=
+  ⟨by rfl, by rfl, by decide, by decide⟩
+
+end Containers
 
 end CCV.C13
